@@ -315,6 +315,32 @@ def systematic(rng, start_index):
             text += g.out
             msgs.append((name, kind, 0x0C00 + idx))
             idx += 1
+    # the ONLY constant-valued member of a container in each kind of position: top level, if arm, else-if arm, else arm, optional tail, nested if inside an
+    # else-if arm (the printers gate the `*_VALUE` constants on "the container has a constant somewhere")
+    for where_ in ("top", "if", "else-if", "else"):      # (a conditional followed by an optional tail, and nested conditionals, are known findings with their own probes)
+        g = Gen(rng, idx)
+        g.names = names
+        en, ty, ens = g.enum()
+        v = g.name()
+        const = f"u16 {g.name()} = 4660;"
+        arm = lambda k: ("        " + const + "\n" if where_ == k else "") + f"        u8 {g.name()};\n"
+        body = ("    " + const + "\n" if where_ == "top" else "") + f"    {en} {v};\n"
+        body += f"    if ({v} == {ens[0][0]}) {{\n{arm('if')}    }}\n"
+        inner = ""
+        if where_ == "nested-in-else-if":
+            en2, ty2, ens2 = g.enum()
+            v2 = g.name()
+            inner = f"        {en2} {v2};\n        if ({v2} == {ens2[0][0]}) {{\n            {const}\n            u8 {g.name()};\n        }}\n"
+        body += f"    else if ({v} == {ens[1][0]}) {{\n{arm('else-if')}{inner}    }}\n"
+        body += f"    else {{\n{arm('else')}    }}\n"
+        if where_ == "optional":
+            body += f"    optional {g.name()} {{\n        {const}\n        u32 {g.name()};\n    }}\n"
+        kind = "smsg" if idx % 2 else "cmsg"
+        name = f"{kind.upper()}_VERIF_{g.name('').upper()}"
+        g.out.append(f"{kind} {name} = 0x{0x0C00 + idx:04X} {{\n{body}}} {{\n    versions = \"1.12\";\n}}\n")
+        text += g.out
+        msgs.append((name, kind, 0x0C00 + idx))
+        idx += 1
     # self.size shapes: the members in front of a `self.size` field are subtracted from size() by the writer (`self.size() - N`): every
     # constant-size member kind in front — nothing, integers, an enum of every width as declared and UPCAST to a wider integer, a Bool, a Guid,
     # a fixed array — over both usual widths of the size field, with a variable-size tail behind
